@@ -1049,11 +1049,7 @@ impl ExtensionStore {
             HashMap<SimpleSelector, IndexMap<ComplexSelector, Extension>>,
         > = None;
         for extension in extensions {
-            let mut sources = self
-                .extensions
-                .get(&extension.target.clone().unwrap())
-                .unwrap()
-                .clone();
+            let target = extension.target.clone().unwrap();
 
             // `extend_existing_selectors` would have thrown already.
             let selectors: Vec<ComplexSelector> = if let Some(v) = self.extend_complex(
@@ -1077,7 +1073,7 @@ impl ExtensionStore {
 
             let contains_extension = selectors.first() == Some(&extension.extender);
 
-            let mut first = false;
+            let mut first = true;
             for complex in selectors {
                 // If the output contains the original complex selector, there's no
                 // need to recreate it.
@@ -1087,16 +1083,19 @@ impl ExtensionStore {
                 }
 
                 let with_extender = extension.clone().with_extender(complex.clone());
-                let existing_extension = sources.get(&complex);
-                if let Some(existing_extension) = existing_extension.cloned() {
-                    sources.get_mut(&complex).replace(
-                        &mut MergedExtension::merge(existing_extension.clone(), with_extender)
-                            .unwrap(),
+
+                // n.b. this must update the registered extensions of `target` in
+                // place: the transitively generated extension has to be visible
+                // to selectors that are added later
+                let sources = self.extensions.get_mut(&target).unwrap();
+
+                if let Some(existing_extension) = sources.get(&complex).cloned() {
+                    sources.insert(
+                        complex.clone(),
+                        MergedExtension::merge(existing_extension, with_extender).unwrap(),
                     );
                 } else {
-                    sources
-                        .get_mut(&complex)
-                        .replace(&mut with_extender.clone());
+                    sources.insert(complex.clone(), with_extender.clone());
 
                     for component in complex.components.clone() {
                         if let ComplexSelectorComponent::Compound(component) = component {
@@ -1109,10 +1108,10 @@ impl ExtensionStore {
                         }
                     }
 
-                    if new_extensions.contains_key(&extension.target.clone().unwrap()) {
+                    if new_extensions.contains_key(&target) {
                         additional_extensions
                             .get_or_insert_with(HashMap::new)
-                            .entry(extension.target.clone().unwrap())
+                            .entry(target.clone())
                             .or_insert_with(IndexMap::new)
                             .insert(complex.clone(), with_extender.clone());
                     }
@@ -1123,7 +1122,10 @@ impl ExtensionStore {
             // version.
             if !contains_extension {
                 // todo: evaluate whether we could get away with swap_remove
-                sources.shift_remove(&extension.extender);
+                self.extensions
+                    .get_mut(&target)
+                    .unwrap()
+                    .shift_remove(&extension.extender);
             }
         }
         additional_extensions
